@@ -787,7 +787,9 @@ REGISTRY["C04"] = dict(
                "batches) the xs protocol - ONE batch over the three partitions per insert/remove, acknowledged after "
                "persist(SyncAll) - gives: at every crash instant inside operation k the recovered state is the state after k "
                "or k+1 operations (process kill and power loss), acknowledged operations are always included, and the "
-               "recovered partitions are those of the store model (hence by-id/in-context/under-topic agree, C05). Dropping "
+               "recovered partitions are those of a store-model state satisfying the refinement invariant InvZ (the three partitions "
+               "are the key-sorted encodings of one id-sorted list of valid frames: by-id / in-context / under-topic agree, C01/C05) "
+               "for every admissible journal (C04_crash_image_consistent, C04_power_image_consistent). Dropping "
                "the persist is refuted by a computed witness. Tie + validation of the journal model against real fjall "
                "recovery: fault enumeration at system-call granularity with an LD_PRELOAD shim (every tracked call of generated "
                "workloads, kill / power-loss / torn-write variants), survivors reopened by a fresh process and compared with "
